@@ -29,8 +29,9 @@ STUBS = [
     "sys.intern -> identity (pathlib 3.12 interns path segments; semantically the identity)",
     "aioftp.server.logger / aioftp.client.logger -> recording logger (stores (level, fmt, args))",
     "aioftp.pathio.time.time / aioftp.server.time.time -> fixed virtual wall clock (integer seconds)",
-    "aioftp.server.time.localtime -> gmtime (fixed UTC zone; DST outside the claim)",
+    "aioftp.server.time.localtime -> fixed zone UTC+05:30 (DST outside the claim); gmtime is the real one",
     "event loop -> vlib.vloop.VLoop (integer virtual clock, no selector, no threads)",
+    "aioftp.client.datetime.datetime.now -> fixed harness clock in the same zone UTC+05:30",
 ] + chpatch.PATCHES
 
 FIXED_NOW = 1700000000
@@ -71,11 +72,12 @@ srv.logger = SERVER_LOG
 cli.logger = CLIENT_LOG
 
 WALL = types.SimpleNamespace(now=FIXED_NOW)
+ZONE = 5 * 3600 + 1800  # the harness's local zone: UTC+05:30, fixed offset, shared by server and client
 pathio.time = types.SimpleNamespace(time=lambda: WALL.now)
 srv.time = types.SimpleNamespace(
     time=lambda: WALL.now,
     gmtime=_real_time.gmtime,
-    localtime=_real_time.gmtime,
+    localtime=lambda t=None: _real_time.gmtime((WALL.now if t is None else t) + ZONE),
     strftime=_real_time.strftime,
 )
 
@@ -93,6 +95,20 @@ def conc(x, lo, hi):
         else:
             lo = mid + 1
     return lo
+
+
+import datetime as _real_datetime  # noqa: E402
+
+
+class datetime(_real_datetime.datetime):  # noqa: N801  (keeps the class name 'datetime')
+    """datetime.datetime whose now() is the harness clock: CrossHair would otherwise make it a nondeterministic source"""
+
+    @classmethod
+    def now(cls, tz=None):
+        return _real_datetime.datetime.fromtimestamp(WALL.now + ZONE, _real_datetime.timezone.utc).replace(tzinfo=None)
+
+
+cli.datetime = types.SimpleNamespace(datetime=datetime, timedelta=_real_datetime.timedelta, timezone=_real_datetime.timezone)
 
 
 def reset_logs():
